@@ -4,7 +4,7 @@
    the deterministic simulated MPI with deadlock / spin detection on every run. *)
 From Coq Require Import ZArith List Bool Lia.
 Import ListNotations.
-From Ygm Require Import RankMachine RankInv RankNoErr RankBound RankSendBound.
+From Ygm Require Import RankMachine RankInv RankNoErr RankBound RankSendBound RankSendBoundAll.
 
 Theorem C03_send_wait_polls : forall c fuel s,
   (1 <= fuel)%nat -> sendq s <> [] -> inprq s = false -> intr s = true -> oracle s = [] ->
@@ -81,6 +81,24 @@ Theorem C03_what_a_handler_sends_is_bounded : forall c nr L,
 Proof. exact handler_sends_bounded. Qed.
 Print Assumptions C03_what_a_handler_sends_is_bounded.
 
+(* THE SEND-SIZE THEOREM.  For every configuration (capacity >= 0, any routing scheme whose next hops are ranks of the
+   communicator), every broadcast-free main program, handler programs and pre-barrier callbacks (point-to-point asyncs of all
+   flavours, multicasts, local_progress, wait_until, masks, barriers, collectives) whose messages carry at most L payload
+   bytes, every sequence of MPI responses delivering such messages and every execution length: every MPI_Isend the rank ever
+   posts carries at most  capacity + 2 W  bytes (W = the wire size of one largest message) - whether the run completes, blocks
+   in MPI or is stopped by an assertion.  Posted receives of that size can never be overrun; before the repair D13 no bound
+   existed (one whole-machine induction over all 24 procedures, RankSendBoundAll.v; the handler side is the theorem above). *)
+Theorem C03_every_physical_send_is_bounded : forall c nr L,
+  (0 <= L)%Z -> (0 <= c_cap c)%Z -> (forall d, rng nr d -> rng nr (next_hop c d)) ->
+  (forall u, forallb (hsmall nr L) (c_hprog c u) = true) -> (forall i, forallb (mact nr L) (c_cbprog c i) = true) ->
+  forall fuel main orc, forallb (mact nr L) main = true -> Forall (resp_small nr L) orc ->
+  match run_rank fuel c nr main orc with
+  | Ok s' | Blocked s' | Err _ s' => SendsLe c (c_cap c + 2 * W c L) (log s')
+  | OutOfFuel => True
+  end.
+Proof. exact every_send_is_bounded. Qed.
+Print Assumptions C03_every_physical_send_is_bounded.
+
 (* non-vacuity: with capacity 100 and four 60-byte replies to rank 1 a handler posts two sends of 156 bytes (two messages
    each: the second reply pushes the buffer over the capacity), never one of 312 *)
 Example C03_handler_bound_not_vacuous :
@@ -112,4 +130,16 @@ Proof.
   split; [intros u; cbn; destruct (u =? 5); reflexivity|].
   split; [apply resp_okb_ok; reflexivity|].
   eexists. split; [vm_compute; reflexivity|]. cbn. tauto.
+Qed.
+
+(* non-vacuity of the send-size theorem on the run above: its hypotheses hold (L = 40) and the run posts sends of 58 and 22
+   bytes, below 16 + 2 * 66 *)
+Example C03_send_bound_not_vacuous :
+  (forall u, forallb (hsmall 2 40) (c_hprog c3 u) = true) /\ forallb (mact 2 40) [AAsync 1 7 40] = true /\ Forall (resp_small 2 40) orc3 /\
+  exists s, run_rank 1000 c3 2 [AAsync 1 7 40] orc3 = Ok s /\
+            map (fun e => match e with EIsend _ _ ms => wires c3 ms | _ => 0 end) (filter (fun e => match e with EIsend _ _ _ => true | _ => false end) (log s)) = [22; 58].
+Proof.
+  split; [intros u; cbn; destruct (u =? 5); reflexivity|]. split; [reflexivity|].
+  split; [repeat constructor; cbn; unfold msmall; cbn; try lia|].
+  eexists. split; [vm_compute; reflexivity|reflexivity].
 Qed.
